@@ -1,10 +1,161 @@
-use crate::State;
+// C08: configuration files and Excel lists at byte level.
 use crate::util::*;
-use serde_json::Value;
+use crate::{State, guarded};
+use physis::cfg::{ConfigFile, ConfigMap};
+use physis::exl::EXL;
+use serde_json::{Value, json};
+use std::collections::HashMap;
 
 #[derive(Default)]
-pub struct TextState {}
+pub struct TextState {
+    pub cfgs: HashMap<i64, ConfigFile>,
+}
 
-pub fn run(_st: &mut State, op: &str, _cmd: &Value) -> Value {
-    toolerror(&format!("unknown op {op}"))
+fn project(c: &ConfigFile) -> Value {
+    let mut cats = vec![];
+    for name in &c.categories {
+        let pairs: Vec<Value> = c
+            .settings
+            .get(name)
+            .map(|m| {
+                m.keys
+                    .iter()
+                    .map(|(k, v)| json!([sbytes(k), sbytes(v)]))
+                    .collect()
+            })
+            .unwrap_or_default();
+        cats.push(json!({"name": sbytes(name), "pairs": pairs}));
+    }
+    let orphans = c
+        .settings
+        .keys()
+        .filter(|k| !c.categories.contains(k))
+        .count();
+    json!({"cats": cats, "orphans": orphans})
+}
+
+pub fn run(st: &mut State, op: &str, cmd: &Value) -> Value {
+    let h = geti(cmd, "h");
+    match op {
+        "text.cfg.build" => {
+            let mut c = ConfigFile {
+                categories: vec![],
+                settings: HashMap::new(),
+            };
+            for cat in cmd["cats"].as_array().cloned().unwrap_or_default() {
+                let name = get_str(&cat["name"]);
+                c.categories.push(name.clone());
+                let pairs = cat["pairs"].as_array().cloned().unwrap_or_default();
+                if !pairs.is_empty() {
+                    let m = c
+                        .settings
+                        .entry(name)
+                        .or_insert_with(|| ConfigMap { keys: vec![] });
+                    for p in pairs {
+                        m.keys.push((get_str(&p[0]), get_str(&p[1])));
+                    }
+                }
+            }
+            let v = project(&c);
+            st.text.cfgs.insert(h, c);
+            value(v)
+        }
+        "text.cfg.parse" => {
+            let b = get_bytes(&cmd["bytes"]);
+            st.text.cfgs.remove(&h);
+            let mut parsed = None;
+            let r = guarded(|| {
+                let c = ConfigFile::from_existing(&b);
+                let v = opt(c.as_ref(), project);
+                parsed = c;
+                value(v)
+            });
+            if let Some(c) = parsed {
+                st.text.cfgs.insert(h, c);
+            }
+            r
+        }
+        "text.cfg.set" => {
+            let Some(c) = st.text.cfgs.get_mut(&h) else {
+                return json!({"outcome": "nohandle"});
+            };
+            let (k, v) = (get_str(&cmd["key"]), get_str(&cmd["val"]));
+            guarded(|| {
+                c.set_value(&k, &v);
+                value(project(c))
+            })
+        }
+        "text.cfg.haskey" => {
+            let Some(c) = st.text.cfgs.get(&h) else {
+                return json!({"outcome": "nohandle"});
+            };
+            let k = get_str(&cmd["key"]);
+            guarded(|| value(json!(c.has_key(&k))))
+        }
+        "text.cfg.hascat" => {
+            let Some(c) = st.text.cfgs.get(&h) else {
+                return json!({"outcome": "nohandle"});
+            };
+            let k = get_str(&cmd["cat"]);
+            guarded(|| value(json!(c.has_category(&k))))
+        }
+        "text.cfg.write" => {
+            let Some(c) = st.text.cfgs.get(&h) else {
+                return json!({"outcome": "nohandle"});
+            };
+            guarded(|| value(opt(c.write_to_buffer(), |b| bytes(&b))))
+        }
+        "text.cfg.reparse" => {
+            let Some(c) = st.text.cfgs.get(&h) else {
+                return json!({"outcome": "nohandle"});
+            };
+            let mut parsed = None;
+            let r = guarded(|| {
+                let Some(b) = c.write_to_buffer() else {
+                    return fail();
+                };
+                let c2 = ConfigFile::from_existing(&b);
+                let v = json!({"bytes": bytes(&b), "parsed": opt(c2.as_ref(), project)});
+                parsed = c2;
+                value(v)
+            });
+            if let Some(c2) = parsed {
+                st.text.cfgs.insert(h, c2);
+            }
+            r
+        }
+        "text.exl.parse" => {
+            let b = get_bytes(&cmd["bytes"]);
+            guarded(|| {
+                let x = EXL::from_existing(&b);
+                value(opt(x, |x| {
+                    let contains: Vec<bool> = cmd["probe"]
+                        .as_array()
+                        .cloned()
+                        .unwrap_or_default()
+                        .iter()
+                        .map(|n| x.contains(&get_str(n)))
+                        .collect();
+                    let rewritten = opt(x.write_to_buffer(), |b| bytes(&b));
+                    json!({"version": x.version,
+                           "entries": x.entries.iter().map(|(n, i)| json!([sbytes(n), i])).collect::<Vec<Value>>(),
+                           "contains": contains, "rewritten": rewritten})
+                }))
+            })
+        }
+        "text.exl.write" => {
+            let x = EXL {
+                version: geti(cmd, "version") as i32,
+                entries: cmd["entries"]
+                    .as_array()
+                    .cloned()
+                    .unwrap_or_default()
+                    .iter()
+                    .map(|e| (get_str(&e[0]), e[1].as_i64().unwrap_or(0) as i32))
+                    .collect(),
+            };
+            guarded(|| value(opt(x.write_to_buffer(), |b| bytes(&b))))
+        }
+        _ => toolerror(&format!("unknown op {op}")),
+    }
 }
